@@ -278,7 +278,9 @@ class DenseOutput(object):
 
     def remove_interpolant(self, idx):
         out = self.t_eval.pop(idx), self.y_interpolants.pop(idx)
-        self.__t_eval_arr = D.ar_numpy.stack(self.t_eval)
+        if len(self.t_eval) > 0:
+            self.__t_eval_arr = D.ar_numpy.stack(self.t_eval)
+        self.__t_eval_arr_stale = False
         return out
 
     def __len__(self):
@@ -1056,6 +1058,9 @@ class OdeSystem(object):
                                     self.__events.append(ev_state)
 
                         if end_int:
+                            # the step that overshot the terminal event is rolled back: drop its interpolant(s)
+                            for _ in range(len(self.__sol) - __pre_length):
+                                self.__sol.remove_interpolant(-1)
                             self.integrate(roots[-1])
                             self.__int_status = 2
                         else:
